@@ -26,7 +26,16 @@ class AnalysisError(Exception):
 
 
 class AnchorMissing(AnalysisError):
-  pass
+  """`public` is False for private helpers (leading underscore) and functions nested in functions: implementation details that a
+  behaviour-preserving refactor may rename, inline or remove."""
+
+  def __init__(self, msg: str, public: bool = True):
+    super().__init__(msg)
+    self.public = public
+
+
+def _private_name(qualname: str) -> bool:
+  return any(c.startswith('_') and not (c.startswith('__') and c.endswith('__')) for c in qualname.split('.'))
 
 
 ROOT_PACKAGES = ('fedjax', 'examples', 'experiments')
@@ -194,7 +203,7 @@ class FuncInfo:
     for c in self.scope.children:
       if c.kind == 'function' and c.name == name:
         return self.module.funcs_by_node[c.node]
-    raise AnchorMissing(f'{self.module.name}:{self.qualname}.{name}')
+    raise AnchorMissing(f'{self.module.name}:{self.qualname}.{name}', public=False)
 
   def __repr__(self):
     return f'<Func {self.module.name}:{self.qualname}>'
@@ -235,7 +244,7 @@ class ClassInfo:
   def method(self, name: str) -> FuncInfo:
     m = self.methods.get(name)
     if m is None:
-      raise AnchorMissing(f'{self.module.name}:{self.qualname}.{name}')
+      raise AnchorMissing(f'{self.module.name}:{self.qualname}.{name}', public=not _private_name(f'{self.qualname}.{name}'))
     return m
 
   @property
@@ -323,13 +332,15 @@ class Module:
     for f in self.funcs_by_node.values():
       if f.qualname == qualname:
         return f
-    raise AnchorMissing(f'{self.name}:{qualname}')
+    parent = qualname.rsplit('.', 1)[0] if '.' in qualname else None
+    nested = parent is not None and any(f.qualname == parent for f in self.funcs_by_node.values())
+    raise AnchorMissing(f'{self.name}:{qualname}', public=not nested and not _private_name(qualname))
 
   def cls(self, qualname: str) -> ClassInfo:
     for c in self.classes_by_node.values():
       if c.qualname == qualname:
         return c
-    raise AnchorMissing(f'{self.name}:{qualname}')
+    raise AnchorMissing(f'{self.name}:{qualname}', public=not _private_name(qualname))
 
   def enclosing_scope(self, node: ast.AST) -> Scope:
     n = node
